@@ -43,7 +43,12 @@ def r1(ctx):
     calls = {cs.name: cs for cs in b.calls()}
     pushes = [cs for cs in b.calls() if cs.name == "push"]
     pushed = [X.render(O.call_args(cs)[1]) for cs in pushes]
-    eqs = [cs for cs in b.calls() if cs.name in ("eq", "ne")]
+    # exact comparison with every entry: an explicit loop with `==`, `iter().any(|k| k == name)` (the comparison then sits in a
+    # closure) or `contains`; a `binary_search` is not one of them - the table is not sorted
+    bodies = [b] + P.closures_of(b)
+    eqs = [cs for bd in bodies for cs in bd.calls() if cs.name in ("eq", "ne", "contains")]
+    if any(cs.name.startswith("binary_search") for bd in bodies for cs in bd.calls()):
+        eqs = []
     detail = {"function": b.path, "pushed_chars": pushed, "comparisons": [X.short(c.callee) for c in eqs]}
     if "95" not in pushed:       # '_' as char constant
         ctx.fail(rule, "escape-suffix", "rust_field_name no longer appends `_` to a keyword", "%s:%d" % (b.file, b.line), detail)
